@@ -118,7 +118,7 @@ def run(ctx):
     ctx.assume('oracle: exact rational integration of the piecewise-linear response on the float inputs; midpoints formed in float64 as the statement\'s midpoints',
                'tolerance 1e-9 relative + 1e-12 of sum|R| (trapezium sums in float64)', 'strictly monotone grids (duplicate frequencies outside the quantifier)')
     ctx.require_events('Filter.rebin:post', 'Filter.normalize:post', 'file:checked', 'flat-spectrum', 'filter:read-from-text', 'rebin:same-filter-again', 'reconvolved:same-name-new-response')
-    ctx.require_regimes('filter:ascending-nu', 'filter:descending-nu', 'grid:ascending-nu', 'grid:descending-nu', 'grid:coarser', 'grid:finer',
+    ctx.require_regimes('grid:not-in-Hz', 'filter:ascending-nu', 'filter:descending-nu', 'grid:ascending-nu', 'grid:descending-nu', 'grid:coarser', 'grid:finer',
                         'overlap:partial-lo', 'overlap:partial-hi', 'overlap:contains', 'overlap:contained', 'edges:coincide', 'pkg:v1', 'pkg:v2', 'pkg:mixed-grids', 'filter:not-normalised', 'grids:nearly-equal')
     d = ctx.newdir('c06')
     n_reb = 500 if ctx.quick else 15000
@@ -184,18 +184,21 @@ def run(ctx):
         ctx.regime('grid:descending-nu' if gdesc else 'grid:ascending-nu')
         inside = np.sum((g > f.nu.value.min()) & (g < f.nu.value.max()))
         ctx.regime('grid:finer' if inside > len(fw) else 'grid:coarser')
+        gunit = [u.Hz, u.GHz, u.THz][it % 3]       # the SED grid may be given in any frequency unit
+        if gunit != u.Hz:
+            ctx.regime('grid:not-in-Hz')
         try:
-            f.rebin(g.copy() * u.Hz)
-            if it % 3 == 0:
+            f.rebin((g.copy() * u.Hz).to(gunit))
+            if it % 3 == 0 or it % 7 == 1:
                 # the same Filter object re-binned again onto other grids (same length, then different): no state may carry over
                 g2 = g * (1 + 0.013 * np.arange(len(g)) / len(g))
                 f.rebin(g2.copy() * u.Hz)
-                f.rebin(g[::-1].copy() * u.Hz)
-                f.rebin(g.copy() * u.Hz)
+                f.rebin((g[::-1].copy() * u.Hz).to(u.GHz))
+                f.rebin((g.copy() * u.Hz).to(gunit))
                 f.normalize()                      # normalised *after* having been re-binned ...
                 f.rebin(g.copy() * u.Hz)           # ... the next re-binning must use the normalised response
                 f.response = f.response * 3.0      # response re-assigned
-                f.rebin(g2.copy() * u.Hz)
+                f.rebin((g2.copy() * u.Hz).to(u.THz))
                 ctx.event('rebin:same-filter-again')
         except Exception as exc:
             if kind == 'disjoint':
